@@ -19,7 +19,8 @@ def _oblig_table(spec_path):
             s = l.strip()
             if s.startswith("//@oblig "):
                 parts = [p.strip() for p in s[len("//@oblig "):].split(" :: ")]
-                obl.append({"fn": parts[0], "role": parts[1], "text": parts[2] if len(parts) > 2 else ""})
+                overlay = len(parts) > 3 and parts[2] == "overlay"
+                obl.append({"fn": parts[0], "role": parts[1], "text": parts[-1] if len(parts) > 2 else "", "from_repo": not overlay})
     return obl
 
 
@@ -143,7 +144,7 @@ def run_unit(unit, repo, verif_root, vacuity=False, rlimit=None, extra_args=()):
         if failing and st != "failed":
             st = "failed"
         res["obligations"].append({"name": "verus:%s::%s" % (unit, o["fn"]), "role": o["role"], "text": o["text"],
-                                   "backend": "verus/z3", "status": st, "solver_ms": tm, "bound": None,
+                                   "backend": "verus/z3", "status": st, "solver_ms": tm, "bound": None, "from_repo": o["from_repo"],
                                    "failing": failing})
     listed = {o["fn"].split("::")[-1] for o in table}
     res["unlisted_failures"] = [e for e in res["errors"] if e["fn"] not in listed]
